@@ -174,6 +174,15 @@ def cases(tier):
         yield "or-right", ("or", a, ("or", b, c))
         yield "any3", ("any", (a, b, c))
         yield "any-nested", ("any", (("any", (a, b)), c))
+    # two differently parametrised instances of one user type whose printed form hides the
+    # parameter; the type and a subclass of it with equal props and another meaning
+    M3, M5, N3 = ("mult", 3), ("mult", 5), ("nmult", 3)
+    for a, b in ((M3, M5), (M5, M3), (M3, N3), (N3, M3)):
+        yield "or", ("or", a, b)
+        yield "any", ("any", (a, b))
+        yield "or-left", ("or", ("or", a, b), NONE)
+        yield "or-right", ("or", NONE, ("or", a, b))
+        yield "any-nested", ("any", (("any", (NONE, a)), b))
     # the bare schema.any (no alternatives declared: accepts everything) as an operand
     BARE = ("any", None)
     for x in (INT, NONE, ("any", (INT, STR))):
